@@ -17,7 +17,7 @@ class Finding(object):
         self.func = func
         self.stmt = norm(stmt) if not isinstance(stmt, str) else ' '.join(stmt.split())
         self.message = message
-        self.lineno = lineno if lineno is not None else getattr(stmt, 'lineno', None)
+        self.lineno = lineno if lineno is not None else getattr(stmt, '_src_lineno', getattr(stmt, 'lineno', None))     # the line the statement was written on (an inlined statement sits at its call site in the analysed view)
         self.path = path
 
     def key(self, prop):
